@@ -1443,6 +1443,11 @@ package gocql
 //@   assume_after execIfMissing: !execIfMissing_ret1 ==> execIfMissing_ret0 != nil && execIfMissing_ret0.done != nil && execIfMissing_ret0.err == nil && execIfMissing_ret0.preparedStatment == nil
 //@   assume_after execIfMissing: plru_bound(c.session.stmtsLRU) && c.session != nil && c.session.stmtsLRU != nil
 //@   ensures execIfMissing_calls == 1 && go_calls <= 1 && (go_calls == 1) == !execIfMissing_ret1
+// what a waiter reads after the entry's completion is what the winner's goroutine (prepareStatement$2,
+// proved) left there: a statement whose bind metadata has one column specification per marker, or an error
+//@   ensures_assumed result1 == nil ==> result0 != nil && result0.request.actualColCount == len(result0.request.columns) && result0.request.actualColCount >= 0
+//@   ensures c.session == old(c.session) && c.session.stmtsLRU == old(c.session.stmtsLRU) && c.host == old(c.host)
+//@   ensures plru_bound(c.session.stmtsLRU)
 
 // the creator run under the cache lock on a miss: a fresh in-flight entry, published under the key
 //@ func (c *Conn) prepareStatement$1
@@ -1467,6 +1472,57 @@ package gocql
 //@   ensures (*flight).err != nil ==> preparedLRU_remove_calls == 1 && (*flight).preparedStatment == nil
 //@   ensures (*flight).err == nil ==> preparedLRU_remove_calls == 0 && (*flight).preparedStatment != nil
 //@   ensures closed((*flight).done)
+
+//@ func (c *Conn) awaitSchemaAgreement
+//@   trusted polls the schema version tables on this connection; does not touch the connection object's fields
+//@   preserves_types Conn Session preparedLRU Cache List Query
+
+//@ func (q *Query) shouldPrepare
+//@   props C14
+//@   trusted classifies the statement by its first keyword (strings/unicode library calls)
+//@   modifies nothing
+
+//@ func marshalQueryValue
+//@   props C14
+//@   requires dst != nil
+// bind values that are pointers are non-nil (a *namedValue comes from NamedValue())
+//@   nonnil_payload value
+//@   modifies *dst
+
+//@ func (r *resultMetadata) morePages
+//@   props C15
+//@   modifies nothing
+//@   ensures result == (r.flags&0x0002 == 0x0002)
+
+// One query on one connection. Prepared path: the statement is prepared (or found) under this
+// connection's host, keyspace and the query's text; EXECUTE carries exactly the id PREPARE returned
+// and as many values as the statement has bind markers - a different number is an error and nothing
+// is sent. UNPREPARED from the server evicts the cached entry (only if it holds that id) and the
+// query is executed again. Paging: a result with more pages carries a follow-up query that is a copy
+// of this one with the received paging state; a last page carries none.
+//@ func (c *Conn) executeQuery
+//@   props C14 C15
+//@   count_calls prepareStatement exec evictPreparedID executeQuery marshalQueryValue keyFor
+//@   requires qry != nil && ctx != nil && c.session != nil && c.session.stmtsLRU != nil && c.host != nil && qry.routingInfo != nil && plru_bound(c.session.stmtsLRU) && c.logger != nil
+//@   before prepareStatement: arg0 == c && same(arg2, qry.stmt)
+//@   before[@exec] exec: typeis(arg2, *writeExecuteFrame) ==> prepareStatement_calls == 1 && prepareStatement_ret1 == nil && same(unbox(arg2, *writeExecuteFrame).preparedID, prepareStatement_ret0.id) && len(unbox(arg2, *writeExecuteFrame).params.values) == prepareStatement_ret0.request.actualColCount && marshalQueryValue_calls == prepareStatement_ret0.request.actualColCount
+//@   before exec: typeis(arg2, *writeQueryFrame) ==> prepareStatement_calls == 0 && same(unbox(arg2, *writeQueryFrame).statement, qry.stmt)
+//@   before exec: typeis(arg2, *writeExecuteFrame) || typeis(arg2, *writeQueryFrame)
+//@   before keyFor: same(arg1, c.host.hostId) && same(arg2, c.currentKeyspace) && same(arg3, qry.stmt)
+//@   before evictPreparedID: keyFor_calls >= 1 && same(arg1, keyFor_ret0) && typeis(resp, *RequestErrUnprepared) && same(arg2, unbox(resp, *RequestErrUnprepared).StatementId)
+//@   before executeQuery: evictPreparedID_calls == 1 && arg0 == c && arg2 == qry
+//@   ensures result != nil
+// paging (checked where the rows result is returned): a follow-up query exists exactly when the page
+// says there are more and auto-paging is on; it is this query with the received paging state
+//@   at_return[C15] typeis(resp, *resultRowsFrame) && x.meta.flags&0x0002 != 0x0002 ==> iter.next == nil
+//@   at_return[C15] typeis(resp, *resultRowsFrame) && qry.disableAutoPage ==> iter.next == nil
+//@   at_return[C15] typeis(resp, *resultRowsFrame) && x.meta.flags&0x0002 == 0x0002 && !qry.disableAutoPage ==> iter.next != nil && iter.next.qry != nil && iter.next.pos >= 1
+//@   at_return[C15] typeis(resp, *resultRowsFrame) && iter.next != nil ==> same(iter.next.qry.stmt, qry.stmt) && same(iter.next.qry.values, qry.values) && iter.next.qry.pageSize == qry.pageSize && iter.next.qry.cons == qry.cons && iter.next.qry.session == qry.session && iter.next.qry.disableAutoPage == qry.disableAutoPage
+//@   at_return[C15] typeis(resp, *resultRowsFrame) && iter.next != nil ==> len(iter.next.qry.pageState) == len(x.meta.pagingState) && forall(k, 0 <= k && k < len(x.meta.pagingState), iter.next.qry.pageState[k] == x.meta.pagingState[k])
+//@   at_return[C15] typeis(resp, *resultRowsFrame) ==> iter.numRows == x.numRows && iter.framer == framer
+//@   ensures executeQuery_calls == 0 ==> exec_calls <= 1
+//@   ensures evictPreparedID_calls == executeQuery_calls
+//@   loop 0: invariant 0 <= i && i <= len(values) && len(params.values) == len(values) && len(values) == info.request.actualColCount && info.request.actualColCount == len(info.request.columns) && marshalQueryValue_calls == i && prepareStatement_calls == 1 && prepareStatement_ret1 == nil && prepareStatement_ret0 == info && exec_calls == 0 && executeQuery_calls == 0 && evictPreparedID_calls == 0
 
 // ---------------------------------------------------------------------------
 // ring.go (C16): the three indexes of the ring (by id, by node-to-node address, ordered list)
